@@ -174,7 +174,7 @@ func refine(sys *tarfs.FS, t *otree, fails []failure) []failure {
 			f.detail = "a directory of the view has two children with one name; " + f.detail
 		case t.flags.hlAlias && f.kind == "stat" && strings.Contains(f.detail, "but the extraction created it"):
 			f.kind = "hardlink-missing"
-		case t.flags.hlAlias && structural:
+		case t.flags.hlAlias && (structural || f.kind == "alias"):
 			f.kind = "hardlink-missing"
 		case t.flags.danglingThrough && structural:
 			f.kind = "hardlink-ghost"
